@@ -8,7 +8,8 @@ _ctrl_fn_remote -> server-side terminate -> control pipe -> _ctrl_fn_local -> fo
 """
 from collections import OrderedDict
 
-from .. import wsim, targets as T
+from .. import wsim, targets as T, vos
+from ..vos import Hang
 from ..rt import Outcome, ev, notrace, conc
 from ..xh import Harness
 from ..main import PropSpec
@@ -141,6 +142,72 @@ def _harness(kind):
 
 HARNESSES = [_harness(k) for k in range(6)]
 
+
+# ---------------------------------------------------------------------------------------------
+# "so its finally/with blocks run": a target whose clean-up takes a few (model) seconds of interruptible Python code, well within
+# the timeout given to terminate(); one request must interrupt the target once, not its clean-up as well
+CLEAN_TMO = 5
+
+
+def h_cleanup(kind, steps, j):
+    with notrace():
+        kind_, steps_, j_ = conc(kind, 6), conc(steps, 4), conc(j, 3)
+        ev("c03.cleanup", wsim.KIND_NAMES[kind_], steps_, j_)
+        T.reset()
+        W = wsim.World(server=wsim.is_remote_kind(kind_))
+        rec = {}
+        try:
+            try:
+                w = W.make(kind_, T.slow_cleanup, args=[8, steps_])
+                if wsim.is_persistent(kind_):
+                    w.enqueue()
+                W.sim.sleep(1.5 + j_)
+                rec["marks0"] = list(T.MARKS)
+                t0 = W.sim.clock
+                # remote kinds have a separate, documented budget for the graceful phase on the server side (remote_timeout, default 1 s)
+                tkw = {"remote_timeout": CLEAN_TMO} if wsim.is_remote_kind(kind_) else {}
+                rec["term"] = w.terminate(timeout=CLEAN_TMO, **tkw)
+                rec["elapsed"] = W.sim.clock - t0
+                rec["dead"] = not w.is_alive()
+                rec["obs"], rec["obs_err"] = wsim.observe(w)
+            except Hang:
+                rec["hang"] = vos.hang_record()
+            except Exception as e:  # noqa
+                rec["api_exc"] = e
+            rec["marks"] = list(T.MARKS)
+        finally:
+            errs = W.close()
+        if errs:
+            raise RuntimeError("simulation kernel errors: %r" % (errs,))
+        name = wsim.KIND_NAMES[kind_]
+        detail = "rec=%r" % ({k: v for k, v in rec.items()},)
+        if "hang" in rec:
+            return Outcome("c03.cleanup.terminate-blocks-forever|" + name, True, detail)
+        if "api_exc" in rec:
+            return Outcome("c03.cleanup.terminate-raises-%s|%s" % (type(rec["api_exc"]).__name__, name), True, detail)
+        if "enter" not in rec["marks0"] or "cleanup-begin" in rec["marks0"]:
+            return Outcome(None, False, detail)         # not inside the target's loop when the request was made
+        if rec["term"] is not True or not rec["dead"]:
+            return Outcome("c03.cleanup.not-dead-within-the-timeout|" + name, True, detail)
+        if rec["obs_err"] or rec["obs"] is None:
+            return Outcome("c03.cleanup.unreadable-after-terminate|" + name, True, detail)
+        alive, he, res, err = rec["obs"]
+        if not (he is True and res is None and isinstance(err, WorkerTerminatedError)):
+            return Outcome("c03.cleanup.interrupted-target-not-reported-as-terminated|" + name, True, detail)
+        marks = rec["marks"]
+        if marks.count("cleanup-begin") != 1 or "return" in marks:
+            return Outcome("c03.cleanup.target-not-interrupted-exactly-once|" + name, True, detail)
+        if "cleanup-done" not in marks or "exit" not in marks:
+            return Outcome("c03.cleanup.finally-block-cut-short|" + name, True, detail)
+        return Outcome(None, True, detail)
+
+
+H_CLEANUP = Harness("cleanup", "vf.props.c03:h_cleanup", OrderedDict([("kind", (0, 5)), ("steps", (0, 3)), ("j", (0, 2))]),
+                    tiers={"quick": {"partition": ["kind"], "timeout": 200, "twin_fixed": {"kind": 0}},
+                           "thorough": {"partition": ["kind"], "timeout": 200, "twin_fixed": {"kind": 0}}},
+                    functions=_FUNCS + ["pyworkers.utils:foreign_raise"])
+HARNESSES.append(H_CLEANUP)
+
 def real_replay(harness, args, failure):
     """Thread kinds: reproduce the landing on a real thread with a line tracer (vf/realthread.py)."""
     import re
@@ -179,6 +246,8 @@ SPEC = PropSpec(
         "simulation model of C01; foreign_raise is replaced by 'record a pending asynchronous exception for the actor with that thread ident in "
         "the caller's process'; it is raised at that actor's next statement-level injection point or when its blocking virtual-OS call returns",
         "the target (vf/targets.py: work) lets the exception propagate and records enter/finally/exit marks",
+        "harness 'cleanup': a target whose finally block takes 0-3 model seconds of interruptible Python code; terminate(timeout=5) is called "
+        "1.5-3.5 s after the start, while the target is in its loop; the clean-up must be entered once and run to its end",
         "phase of the landing point is read from the target's marks at landing time; for landings before the target was entered or after it "
         "finished, an outcome 'has_error True, error None' is accepted next to the terminated / own outcome (the statement is explicit only for "
         "landings inside the running target)",
